@@ -10,8 +10,21 @@ def regen_encoder_tables(ctx):
                      cwd=ctx["root"], env=dict(ctx["env"], VERIF_REPO=ctx["repo"], VERIF_EXE=ctx["exe"] or ""))
 
 
+def sweep_no_panic(ctx):
+    """all 2^24 colours x 3 roles x 3 depths through the real encoder (harness tool c20sweep, shared with C20):
+    for C05 this is the run that backs 'no panic' on the f32 reduction path, which the model does not contain"""
+    import importlib.util
+    spec = importlib.util.spec_from_file_location("props_c20", os.path.join(ctx["root"], "props.d", "C20.py"))
+    mod = importlib.util.module_from_spec(spec)
+    spec.loader.exec_module(mod)
+    res = mod.sweep(ctx)
+    cov = {"c20sweep_" + k: v for k, v in res.get("coverage", {}).items()}
+    return {"violations": res.get("violations", []), "coverage": cov, "notes": res.get("notes", [])}
+
+
 PROP = {'gen': [],
  'pre_coq': [regen_encoder_tables],
+ 'extra': [sweep_no_panic],
  'coq_props': ['theories/Props/C05.vo'],
  'coq_corr': ['theories/Corr/C05Corr.vo'],
  'props_file': 'theories/Props/C05.v',
@@ -60,7 +73,7 @@ PROP = {'gen': [],
                  'cursor/erase/scroll functions means 1 (xterm); SGR 22 = normal intensity, 21 = double underline (ECMA-48)',
                  'domain of the meaning theorems (cmd_ok): usize / i32 ranges, colour channels < 256, FaceAttrs underline style code 0..5 '
                  '(codes 6 and 7 are not constructible through the public API), titles without control '
-                 'characters (Unicode Cc), Char other than the seven characters that open a control sequence or string (ESC, C1 DCS SOS '
-                 'CSI OSC PM APC: known finding C05-char-introducer, C05_char_introducer_refuted); Raw means its bytes '
+                 'characters (Unicode Cc), Char of any scalar value (a control is executed, DEL / ST ignored, the seven sequence '
+                 'introducers are shown as U+FFFD since crate fix 73d8d1c: decisions D8, D10 of Encoder/Denote.v); Raw means its bytes '
                  'and is excluded from self-containedness',
                  'writes into the output never fail (io errors are outside the model)']}
